@@ -20,5 +20,6 @@ func genAll() {
 	genSync()
 	genHandler()
 	genNetRules()
+	genReshareRules()
 	genScripts()
 }
